@@ -63,6 +63,8 @@ def make_trace(mode: str, scn: dict, run: dict, *, c12: bool, c13: bool = True, 
     the pty worker."""
     f = run["final"]
     op = run.get("op") or dict(vtty.NO_OP, name=scn["op"])
+    if op["name"] == "history" and op["more"] == "always":
+        op = dict(op, more=scn["inner"])
     term = dict(scn["term"])
     term["sup"] = sorted(term["sup"])
     return {
@@ -113,6 +115,15 @@ def random_sched(rng, rs: list[bytes], budget: int) -> list[dict]:
     return out
 
 
+def eff_op(scn: dict) -> str:
+    return scn["inner"] if scn["op"] == "history" else scn["op"]
+
+
+def label(scn: dict) -> str:
+    """operation name used in signatures"""
+    return scn["inner"] + "@disable-enable" if scn["op"] == "history" else scn["op"]
+
+
 def writes_of(op: str, term: dict, enabled: bool = True, ioctl_good: bool = False) -> list[list[str]]:
     """The query groups the operation sends (dumb mirror used only to build schedules)."""
     if not enabled or (op == "cellsize" and ioctl_good):
@@ -124,14 +135,22 @@ def writes_of(op: str, term: dict, enabled: bool = True, ioctl_good: bool = Fals
 
 
 def scenario(op: str, term: dict, *, rng=None, tmo: int = 64, enabled=True, swap=False, win=None,
-             ioctl_fails=False, preload=(), attr0=None) -> dict:
+             ioctl_fails=False, preload=(), attr0=None, history=False) -> dict:
+    """history=True: disable_queries(); op(); enable_queries(); op()  (the first call writes nothing)"""
+    scn = _scenario(op, term, rng, tmo, enabled, swap, win, ioctl_fails, preload, attr0)
+    if history:
+        scn.update(op="history", inner=op)
+    return scn
+
+
+def _scenario(op, term, rng, tmo, enabled, swap, win, ioctl_fails, preload, attr0) -> dict:
     win = dict(win or WIN0)
     good = not ioctl_fails and win["xpx"] and win["ypx"]
     sched = []
     for qs in writes_of(op, term, enabled, bool(good)):
         rs = replies(term, qs)
         sched.append(random_sched(rng, rs, tmo) if rng else one_burst(rs))
-    return {"op": op, "enabled": enabled, "swap": swap, "win": win, "ioctlFails": ioctl_fails,
+    return {"op": op, "inner": "always", "enabled": enabled, "swap": swap, "win": win, "ioctlFails": ioctl_fails,
             "preload": list(preload), "sched": sched, "attr0": dict(attr0 or W0), "tmo": tmo, "term": term,
             "intime": True}
 
